@@ -251,6 +251,15 @@ def _dataset_class():
             own = any(self is d for d in _W.datasets)
             return await _W.executor_called(("d", self.idx) if own else ("copy-of-d", self.idx), a, title)
 
+    class RecDatasetTask(RecDataset):
+        """The same, written as a plain function that returns an awaitable which is not a coroutine (a Task), as an
+        executor that hands the work to a pool does."""
+
+        def execute_result_async(self, a: ast.AST, title: Optional[str] = None):  # type: ignore
+            own = any(self is d for d in _W.datasets)
+            return asyncio.ensure_future(_W.executor_called(("d", self.idx) if own else ("copy-of-d", self.idx), a, title))
+
+    RecDataset.TaskVariant = RecDatasetTask
     return RecDataset
 
 
@@ -271,8 +280,12 @@ def _scribble(a: ast.AST):
 
 
 def make_override(k: int):
-    async def override(a, title=None):
-        return await _W.executor_called(("o", k), a, title)
+    if k % 2 == 1:
+        def override(a, title=None):        # a plain function returning a Task (an awaitable that is not a coroutine)
+            return asyncio.ensure_future(_W.executor_called(("o", k), a, title))
+    else:
+        async def override(a, title=None):
+            return await _W.executor_called(("o", k), a, title)
     override.idx = k
     return override
 
@@ -418,7 +431,8 @@ class Runner:
 
         kind = o["op"]
         if kind == "ds":
-            d = self.RecDataset(len(self.datasets), TYPES[o["ty"]])
+            cls = self.RecDataset.TaskVariant if len(self.datasets) % 2 == 1 else self.RecDataset
+            d = cls(len(self.datasets), TYPES[o["ty"]])
             self.datasets.append(d)
             self.resolved.append(o)
             self._emit("(ds %s)" % hx(tyname(TYPES[o["ty"]])), self._new_stream(d))
